@@ -1,8 +1,9 @@
 (* Scopes/Syntax.v — statement skeletons of property C09.
    Every assignment carries a distinct definition node (the int literal it
    assigns, > 0); every use carries a distinct use id.  Conditions are opaque.
-   `SLoop false` is `while cond():` / `for _ in seq():` (may run zero times),
-   `SLoop true` is `while True:` (left only through break/return/raise; its
+   `SLoop LCond` is `while cond():` / `for _ in seq():` (may run zero times),
+   `SLoop LAlways` is a `for` loop over a non-empty literal (runs at least once),
+   `SLoop LForever` is `while True:` (left only through break/return/raise; its
    else clause is unreachable and must be empty in the generated programs). *)
 From Coq Require Import NArith List Bool.
 Import ListNotations.
@@ -11,12 +12,18 @@ Definition var := N.
 Definition node := N.
 Definition UN : node := 0%N.   (* the "uninitialized" marker *)
 
+(* how often a loop runs *)
+Inductive lkind := LCond | LAlways | LForever.
+Definition is_forever (k : lkind) : bool := match k with LForever => true | _ => false end.
+Definition is_always (k : lkind) : bool := match k with LCond => false | _ => true end.
+Definition is_cond (k : lkind) : bool := match k with LCond => true | _ => false end.
+
 Inductive stmt : Type :=
 | SAssign (v : var) (d : node)
 | SUse (v : var) (u : N)
 | SCall | SPass | SReturn | SRaise | SBreak | SContinue
 | SIf (b e : block)
-| SLoop (forever : bool) (b e : block)
+| SLoop (k : lkind) (b e : block)
 | SWith (sup : bool) (b : block)
 | STry (b : block) (hs : handlers) (e f : block)
 with block : Type :=
